@@ -76,8 +76,16 @@ def ps1(ctx):
             continue
         n += 1
         bad = writes_escaping(ctx, b, lambda x: full_sync_sites(ctx, x))
+        wit = None
+        if bad:
+            cutp = full_sync_sites(ctx, b)
+            for e in [x['point'] for x in b.ok_exits()]:
+                w_ = b.witness(bad[0], e, avoid=cutp)
+                if w_:
+                    wit = {'path': w_}
+                    break
         ctx.check(not bad, '%s:critical-persist' % b.path, where(b, (bad or [b.entry])[0]), 'every WAL write reaches Ok only through flush+fsync+dirsync (constant FlushAndFsync)',
-                  'a critical record (queue creation / deletion) can be acknowledged without flush+fsync+dirsync after the WAL write at %s' % (b.loc(bad[0]) if bad else '-'))
+                  'a critical record (queue creation / deletion) can be acknowledged without flush+fsync+dirsync after the WAL write at %s' % (b.loc(bad[0]) if bad else '-'), detail=wit)
     if n == 0:
         ctx.missing('critical-apis', 'no API body writes RecordPosition / DeleteQueue entries')
 
@@ -97,8 +105,16 @@ def ps2(ctx):
             continue
         n += 1
         bad = writes_escaping(ctx, b, lambda x: [cs.point for cs in x.calls if cs.node in cons] + full_sync_sites(ctx, x))
+        wit = None
+        if bad:
+            cutp = [cs.point for cs in b.calls if cs.node in cons] + full_sync_sites(ctx, b)
+            for e in [x['point'] for x in b.ok_exits()]:
+                w_ = b.witness(bad[0], e, avoid=cutp)
+                if w_:
+                    wit = {'path': w_}
+                    break
         ctx.check(not bad, '%s:policy-consulted' % b.path, where(b, (bad or [b.entry])[0]), 'every WAL write reaches Ok only through the policy consult',
-                  'a WAL write (at %s) can reach a successful return without consulting the persist policy: under Always the operation is acknowledged unpersisted' % (b.loc(bad[0]) if bad else '-'))
+                  'a WAL write (at %s) can reach a successful return without consulting the persist policy: under Always the operation is acknowledged unpersisted' % (b.loc(bad[0]) if bad else '-'), detail=wit)
     if n == 0:
         ctx.missing('apis', 'no API body writes AppendRecords / Truncate entries')
 
